@@ -41,6 +41,7 @@ func (c01) Nontrivial(c *sim.Case, st *sim.Stats) bool {
 
 func (c01) Gen(r *sim.Rand, c *sim.Case, tier string) {
 	g := world.NewGen(r)
+	g.Extra = true
 	// swarm: alphabet classes and families for this run
 	g.Alpha = nil
 	for cls := 0; cls < 6; cls++ {
@@ -86,6 +87,7 @@ func (c01) Gen(r *sim.Rand, c *sim.Case, tier string) {
 	ops = sprinkleSaves(r, ops, 0, r.Range(3, 12), 0.35, 0.1)
 	if r.Chance(0.3) { // interfering second document that uses lists
 		g2 := world.NewGen(r.Fork())
+		g2.Extra = true
 		g2.Fam = world.FBody | world.FList
 		g2.HFOncePerKind, g2.RectTablesOnly, g2.NoJPGName = true, true, true
 		ops2 := sprinkleSaves(r, g2.DocOps(1, r.Range(2, 10)), 1, 6, 0.2, 0)
